@@ -171,6 +171,32 @@ def ambient() -> dict:
     out["ambient:numpy.printoptions"] = _dig({k: (v if isinstance(v, (int, float, str, bool, type(None))) else repr(v)) for k, v in po.items()})
     out["ambient:warnings.filters"] = _dig([(f[0], getattr(f[1], "pattern", f[1]), getattr(f[2], "__name__", str(f[2])), getattr(f[3], "pattern", f[3]), f[4]) for f in warnings.filters])
     out["ambient:cwd"] = os.getcwd()
+    import decimal
+    import locale
+    import random
+    import sys as _sys
+
+    out["ambient:random.state"] = _dig(random.getstate())
+    try:
+        st = np.random.get_state()
+        out["ambient:numpy.random.state"] = _dig((st[0], hashlib.blake2b(st[1].tobytes(), digest_size=8).hexdigest(), st[2], st[3], repr(st[4])))
+    except Exception:
+        pass
+    out["ambient:decimal.context"] = repr(decimal.getcontext())
+    try:
+        out["ambient:locale"] = repr(locale.getlocale())
+    except Exception:
+        pass
+    out["ambient:recursionlimit"] = repr(_sys.getrecursionlimit())
+    try:
+        import contextvars
+
+        ctx = contextvars.copy_context()
+        out["ambient:contextvars"] = _dig(sorted((getattr(k, "name", "?"), repr(_canon(v, 0, frozenset()))) for k, v in ctx.items() if "OpenPinch" in (getattr(type(v), "__module__", "") or "") or isinstance(v, (int, float, str, bool, dict, list, tuple, type(None)))))
+    except Exception:
+        pass
+    out["ambient:sys.path"] = _dig(list(_sys.path))
+    out["ambient:repo_files"] = _repo_listing()
     out["ambient:logging.root"] = _dig((logging.getLogger().level, len(logging.getLogger().handlers), logging.root.manager.disable))
     try:
         import pandas as pd
@@ -179,6 +205,27 @@ def ambient() -> dict:
     except Exception:
         pass
     return out
+
+
+def _repo_listing():
+    """Names and sizes of the files of the repository working tree (cache files and logs a library call might drop there)."""
+    import os
+
+    repo = os.path.realpath(os.environ.get("VERIF_REPO", "/repo"))
+    items = []
+    skip_dirs = {".git", "__pycache__", ".pytest_cache", "_replays", "node_modules", "examples", "docs", "tests", "Excel_Version"}
+    skip_files = {"timing.log"}
+    for root, dirs, files in os.walk(repo):
+        dirs[:] = sorted(d for d in dirs if d not in skip_dirs)
+        for f in sorted(files):
+            if f in skip_files or f.endswith(".pyc"):
+                continue
+            fp = os.path.join(root, f)
+            try:
+                items.append((os.path.relpath(fp, repo), os.path.getsize(fp)))
+            except OSError:
+                pass
+    return hashlib.blake2b(repr(items).encode(), digest_size=8).hexdigest()
 
 
 def _has_opt(pd, k):
